@@ -1,8 +1,9 @@
-(* extraction of the C09 executable model (Model/Server.v, Model/C09Batch.v, Model/C09Seq.v); ExtrOcamlBasic only *)
+(* extraction of the C09 executable model (Model/Server.v, Model/C09Batch.v, Model/C09Seq.v, Model/C09Race.v); ExtrOcamlBasic only *)
 Require Extraction.
 Require Import ExtrOcamlBasic.
-Require Import Base Server C09Batch C09Seq.
+Require Import Base Server C09Batch C09Seq C09Race.
 Extraction Language OCaml.
 Extraction "../ocaml/gen/c09_model.ml" model_krun model_run world0 set_disk set_udict set_fdict lastword expected freshb pub_eqb quiescentb observe
   batch_krun kexpand trace shape_verdict close_overtaken open_overtaken astate0 client_after sess_ok init_okb batch_op
-  model_seq sstep proto_seqb proto_okb lagb lag_of lag_after exception f17b f17c f17d tracked sq_dict text_eqb dictv_eqb run_seq.
+  model_seq sstep proto_seqb proto_okb lagb lag_of lag_after exception f17b f17c f17d tracked sq_dict text_eqb dictv_eqb run_seq
+  race_krun xtrace race_overtaken race_shape race_okb.
